@@ -74,7 +74,7 @@ def quotaprofile(rng, maxc=6):
     "near-quota: n divisible by seats+1, tallies constructed to land on or next to the quota"
     nc = rng.randint(3, maxc)
     seats = rng.randint(1, nc - 1)
-    q = rng.randint(2, 6)
+    q = rng.randint(max(2, -(-nc // (seats + 1))), max(6, -(-nc // (seats + 1))))         # at least as many ballots as candidates
     n = q * (seats + 1)
     base = list(range(1, nc + 1))
     lines = []
@@ -542,7 +542,7 @@ def manycandsprofile(rng):
     hi = rng.sample(range(257, nc + 1), 3)
     lo = rng.randint(1, 256)
     a, b, c = hi
-    lines = [(rng.randint(140, 160), [a, b]), (rng.randint(70, 85), [lo, b]), (rng.randint(25, 35), [b]), (rng.randint(15, 25), [c, lo])]
+    lines = [(rng.randint(170, 190), [a, b]), (rng.randint(80, 95), [lo, b]), (rng.randint(25, 35), [b]), (rng.randint(15, 25), [c, lo])]
     rng.shuffle(lines)
     tie = list(range(1, nc + 1))
     rng.shuffle(tie)
